@@ -115,7 +115,9 @@ MANIFEST = {
                 "up, no refused tearDown before), at layer.tearDown() (set up, nothing derived still set up) and at the "
                 "test-execution site (set-up set == layer + transitive bases), the key leaves setup_layers on every path after "
                 "its tearDown attempt, CanNotTearDown only when not optional, nothing left set up when Runner.run_tests "
-                "returns, no run_layer after a refused tearDown. A bounded oracle on the real Runner replays failures.",
+                "returns, no run_layer after a refused tearDown; 'the test's layer' is the nearest declaration and the test is "
+                "registered under that layer's own name (tests_from_suite == FLAT, find_tests placement). A bounded oracle on "
+                "the real Runner replays failures.",
         'note': COMMON_NOTE + "Assumed: hook contracts (return or raise; cannot reach setup_layers), acyclic __bases__; "
                 "in a child process at most the resumed layer is registered (post of Filter.global_setup); a spawned child "
                 "starts with nothing set up (OS); 'tearDown attempted exactly once' is proved as 'the key is removed on every "
@@ -128,8 +130,10 @@ MANIFEST = {
                 "(NotImplementedError: +0, other exceptions: +1), run_layer (set-up failure: +1) and run_tests (the unittest "
                 "protocol harness: +1 per addError/addFailure/addUnexpectedSuccess/addSubTest(exc)); "
                 "spawn_layer_in_subprocess records exactly one error for a child that cannot be started / dies / reports "
-                "incompletely, and exactly the reported names otherwise (for arbitrary child output). resume_tests (the "
-                "scheduler) is an assumed contract here, bounded by the native oracle (fake children, real -j runs).",
+                "incompletely, and exactly the reported names otherwise (for arbitrary child output); whatever a test module raises "
+                "on import or in test_suite() (any BaseException but KeyboardInterrupt) becomes an import error (find_suites); "
+                "Runner.run reaches feature.report() -- in a child the result channel -- only after a test phase that ended "
+                "normally. resume_tests (the scheduler) is an assumed contract here, bounded by the native oracle.",
         'note': COMMON_NOTE + "Not decided here: OS exit status; child report transfer (see C07); --post-mortem runs end "
                 "with EndRun and return 'passed' by upstream's documented behaviour (testrunner-debugging.rst). Known "
                 "findings: header-like / unterminated stderr noise (unframed child protocol).",
@@ -149,7 +153,8 @@ MANIFEST = {
                 "bases; testSetUp calls the hook of layers[i] at iteration i, testTearDown that of layers[n-1-i] (exact "
                 "reverse); a ghost 'per-test set-up pending' bit makes balance a precondition of testTearDown, required at "
                 "its only call site (stopTest) and established on every protocol path including the start-less addSkip of "
-                "Python >= 3.12.1.",
+                "Python >= 3.12.1; the test loops of run_tests leave the hooks balanced also on their exceptional exits "
+                "(--post-mortem: EndRun out of addError; KeyboardInterrupt), unless a hook itself raised.",
         'note': COMMON_NOTE + "Assumed: per-test hooks do not raise (a raising hook aborts the run by design); that "
                 "startTest precedes the test's own setUp and stopTest follows its tearDown is the unittest protocol.",
     },
@@ -161,7 +166,8 @@ MANIFEST = {
                 "and error names exactly and in order when the lines after the first header-like line are complete; the child "
                 "is re-invoked with --resume-layer, the parent's defaults and original arguments (call-site obligations on the "
                 "argument list). Child side: SubProcess.report writes header(ran, #failures, #errors) and one line per entry, "
-                "nothing else.",
+                "nothing else -- and only after a test phase that ended normally (Runner.run: a child dying from an escaping "
+                "exception delivers no report).",
         'note': COMMON_NOTE + "Not decided: termination (liveness, OS), that a dead child's pipes reach EOF. Assumed: "
                 "header-likeness / decoding as predicates of a line. Known findings (unframed protocol): header-like or "
                 "unterminated stderr noise, '\\r' in names, truncation inside the last name.",
@@ -170,17 +176,24 @@ MANIFEST = {
         'text': "Proof: build_filtering_func returns a closure whose value equals the predicate of the statement for every "
                 "pattern list and every name matched by '.', by a loop invariant over the real loop (selected / unselected "
                 "hold exactly the searchers of the positive patterns / of the bodies of the negated ones) and inlining of "
-                "the real closure; regular expressions are an uninterpreted pure predicate.",
+                "the real closure; regular expressions are an uninterpreted pure predicate. Use: the filter is consulted before import "
+                "on exactly the imported module name (find_suites), --test decides on str(test) alone (tests_from_suite == FLAT), "
+                "--layer in Filter.global_setup; get_options merges the positional filters as the last pattern ('.' is a "
+                "placeholder and adds nothing) and installs ['.'] only when no filter was given; children are started with, and "
+                "parse back, the parent's own words (spawn_layer_in_subprocess call-site clauses, Runner.configure).",
         'note': COMMON_NOTE + "Assumed: re.compile(p).search is a pure predicate; names contain a non-newline character. "
-                "The three corollaries and end-to-end use (find/Filter call sites) are covered by the bounded oracle only.",
+                "The three corollaries and pattern interaction (one alternation regex) are covered by the bounded oracle only.",
     },
     'C12': {
         'text': "Proof of the arithmetic of one layer: startTest/addSkip adjust testsRun by countTestCases, every protocol "
                 "history leaves ghost bad-count == len(failures)+len(errors)+len(unexpectedSuccesses) of the result, "
                 "run_tests passes n_failures == len(failures)+len(unexpectedSuccesses) to the summary and extends the "
-                "runner lists by exactly the result lists (pairs). Totals across processes are bounded (native oracle).",
+                "runner lists by exactly the result lists (pairs); stopTest ends the per-test state so that the start-less addSkip "
+                "counts a later decorator-skipped test; the child header carries ran/#failures/#errors and the parent transfers "
+                "count and names exactly (spawn_layer_in_subprocess); Statistics.report / Filter.report print the runner's own "
+                "counters and lists. Totals across real processes are bounded (native oracle).",
         'note': COMMON_NOTE + "Assumed: base-class list appends; formatter. Known finding: skipped count not transferred "
-                "from child processes. Statistics/Filter.report and the child transfer are bounded only.",
+                "from child processes.",
     },
     'C13': {
         'text': "Proof over ghost std streams: _setUpStdStreams/_restoreStdStreams contracts, every result method leaves the "
@@ -213,8 +226,11 @@ MANIFEST = {
         'text': "Proof: Shuffle.global_setup replaces the suite of each registered layer by a suite over a permutation of that "
                 "layer's own tests (ghost permutation witness updated at the swap; index floor(r*(i+1)) proved in range for "
                 "0 <= r < 1 over the reals), never adds/removes layer names, touches only the current key; syntactic "
-                "obligations on the real source: it reads only the seed, the registered tests and the random stream; features "
-                "are configured Find < Shuffle < SubProcess < Filter < Listing; the seed is reported and handed to children.",
+                "obligations on the real source: it reads only the seed, the registered tests and the random stream, and visits the "
+                "layers in sorted name order; features are configured Find < Shuffle < SubProcess < Filter < Listing; the seed "
+                "is reported and handed to children; get_options keeps the search directories in command-line order "
+                "(--test-path entries, then --path entries; none dropped or merged), so 'the same discovered tests' does not "
+                "depend on string hashing.",
         'note': COMMON_NOTE + "Assumed: A-FLOAT (floats as reals), random.Random(seed).random() is a function of seed and "
                 "position (stdlib guarantee); sorted(items) is a permutation of the items. Reproducibility across real "
                 "processes is bounded (native oracle).",
@@ -235,8 +251,13 @@ MANIFEST = {
                 "cases with a failure (counts are specification functions defined by recursion over the list); the case "
                 "carries a failure / an error iff one was passed. Syntactic obligations on the real source: each of "
                 "test_success/test_failure/test_error records once; writeXMLReports takes the attributes from these "
-                "counters, writes one testcase per case, and passes every attribute and text through xml_safe. "
-                "Well-formedness itself and the name parsers are bounded (native oracle over hostile strings).",
+                "counters, writes one testcase per case, and passes every attribute and text through xml_safe; the recording entry "
+                "points (test_failure / test_error / test_success / import_errors) record exactly once with their own failure "
+                "/ error; the test-case loop of writeXMLReports appends one testcase per case, an error / failure child "
+                "exactly for the cases carrying one, and raises nothing (str(exc) may be empty); xml_safe leaves only XML "
+                "Chars (complete enumeration of all code points on the real pattern); Runner.run writes the reports exactly "
+                "once, after the teardown, iff --xml; nothing in the shared report directory is deleted or renamed. "
+                "ElementTree serialisation and the doctest / manuel name parsers are bounded (native oracle).",
         'note': COMMON_NOTE + "Assumed: ElementTree serialisation; the invariant holds for suite infos stored earlier "
                 "(induction over the call history, _record is the only mutation site).",
         'category': 'proof',
@@ -257,7 +278,10 @@ MANIFEST = {
         'text': "Proof of the report computation: at the test_threads call site new_threads is non-empty and contains "
                 "exactly the threads of the end snapshot that are alive, not in the start snapshot and match no ignore "
                 "pattern (re.match), by a loop invariant over the real loop; startTest and the addSkip fallback take the "
-                "start snapshot.",
+                "start snapshot -- afresh, in this call (ghost snapshot counter), never one left over from an earlier test; stopTest "
+                "takes the end snapshot and makes the report exactly when it holds a thread that is alive, not in the start "
+                "snapshot and not ignored, once (soundness and completeness); threadsupport.enumerate: one proxy per ident of "
+                "sys._current_frames().",
         'note': COMMON_NOTE + "Assumed: threadsupport.enumerate()/sys._current_frames list exactly the running threads; "
                 "identity by ident (known finding: ident reuse within one test).",
     },
@@ -277,7 +301,9 @@ MANIFEST = {
                 "exactly one component (call-site obligation: not in a component before), the root of every DFS tree closes "
                 "its component so the stack is empty when the loop ends, and at the end every node of the graph is in a "
                 "component: the yielded components partition the nodes. (2) Fragment: the default-mode filter block skips a "
-                "component iff it is a single node without self-loop and otherwise yields it once with exactly its nodes. "
+                "component iff it is a single node without self-loop and otherwise yields it once with exactly its nodes. (3) Ownership "
+                "of the representation, decided on the AST: every neighbour set stored by add_neighbors and everything "
+                "_transform_nodes returns is created inside the call (no aliasing with the caller's set or another node's). "
                 "BOUNDED, not proved: that each component is strongly connected and maximal (Tarjan's low-link argument) -- "
                 "explored exhaustively for all digraphs with self-loops on <= 3 nodes in all insertion orders, all 65536 on 4 "
                 "nodes, seeded random graphs on 5-9 nodes, hashable and id()-keyed nodes, edges to unknown nodes, nodes "
@@ -334,6 +360,9 @@ MANIFEST = {
                 "loop deletes exactly the threads observed dead; at stdout.writelines the block is results[printed], seen "
                 "done, written whole; at exit printed == number of layers (each block exactly once, in sequential order). "
                 "The rely's R2 is the proved 'result.done = True in the outermost finally' of spawn_layer_in_subprocess. "
+                "The result collectors keep every line of a child in order except keep-alive lines (one activity mark each), "
+                "and the real _is_dots pattern accepts exactly: dots followed by a line end (language equality proved in z3's "
+                "regular-expression theory). "
                 "Sentence 1 (a -j N run equals the sequential run) is NOT a postcondition of any function: it is covered only "
                 "as the composition C03 (same selection per child) + C07 (lossless transfer) + C12 (sums), and by the "
                 "bounded oracle with real -j runs.",
